@@ -18,6 +18,7 @@ import (
 	"github.com/brewlin/net-protocol/stack"
 	"verifh/fw"
 	"verifh/rfc"
+	"verifh/vt"
 	"verifh/wire"
 )
 
@@ -908,6 +909,20 @@ func Run(sc *Scenario, frameCheck func(dir int, f *wire.Frame) string) Result {
 		for i, x := range eps {
 			res.ClosedState[i] = closedState(x)
 		}
+		// a closed endpoint is silent: whatever it emits during the following virtual minute
+		// (a FIN it still retransmits, say) shows that it never reached the closed state. The
+		// peer is silent by then, so not even TIME-WAIT has anything to answer.
+		at := time.Since(t0)
+		if vt.Virtual {
+			time.Sleep(60 * time.Second)
+		}
+		omu.Lock()
+		for i := range eps {
+			if vt.Virtual && obs[i].lastTx > at && res.ClosedState[i] == "" {
+				res.ClosedState[i] = fmt.Sprintf("still transmitting: its last packet left %v after both sides had read end-of-stream and 10 further seconds had passed", obs[i].lastTx-at)
+			}
+		}
+		omu.Unlock()
 	}
 	collect(res, obs, &resMu)
 	for _, x := range eps {
